@@ -188,14 +188,15 @@ def run(repo: Repo, chk: Check):
     rel = []
     for node in ast.walk(ac):
         if isinstance(node, ast.If) and enclosing_def(node) is ac:
-            apps = [x for x in node.body if isinstance(x, ast.Expr) and isinstance(x.value, ast.Call) and norm(x.value.func) == roles.get("free", "free_colors") + ".append"]
-            if apps:
-                rel.append(node)
+            for arm_, pol_ in ((node.body, True), (node.orelse, False)):
+                apps = [x for x in arm_ if isinstance(x, ast.Expr) and isinstance(x.value, ast.Call) and norm(x.value.func) == roles.get("free", "free_colors") + ".append"]
+                if apps:
+                    rel.append((node, pol_))       # released in the arm taken when the test is pol_
     if len(rel) != 1:
         raise AnalysisError(f"assign_colors: expected one release test, found {len(rel)}")
-    test = rel[0].test
+    test = rel[0][0].test
     from ..cfg import decompose
-    atoms_ = decompose(test, True)
+    atoms_ = decompose(test, rel[0][1])
     ub = compare_upper_bound(atoms_[0][0], atoms_[0][1]) if len(atoms_) == 1 else None
     names = sorted(ub[0]) if ub else []
     ok_rel = ub is not None and len(ub[0]) == 2 and sorted(ub[0].values()) == [-1, 1] and ub[1] <= 0
